@@ -44,7 +44,7 @@ type scenario struct {
 
 type runResult struct {
 	OutputID  string            `json:"output_id"`
-	Flat      map[string]string `json:"flat"`
+	Flat      []leaf            `json:"flat"`
 	DType     string            `json:"dtype"`
 	Err       string            `json:"err"`
 	IsErr     bool              `json:"is_err"`
@@ -253,8 +253,7 @@ func cmdRun(path string) int {
 				rr.Err = err.Error()
 				rr.IsErr = true
 			} else {
-				rr.Flat = map[string]string{}
-				flatten("", data, rr.Flat, 0)
+				rr.Flat = leaves(data)
 				rr.DType = fmt.Sprintf("%T", data)
 			}
 			snk.note("XRunRet", "runidx", i, "id", oid, "err", err)
